@@ -29,7 +29,14 @@ GOENV = dict(os.environ, GOFLAGS="-mod=mod", GOPROXY="off", GOSUMDB="off", GOTOO
 # per property: case caps and wall budgets (seconds per worker)
 PLAN = {
     # id: (quick_cases, quick_budget, thorough_cases, thorough_budget)
-    "default": (40000, 45, 2000000, 900),
+    "default": (200000, 40, 20000000, 1200),
+}
+
+# properties whose cases contain many executions: the probe that counts them
+SUBRUNS = {
+    "C08": ["fault.points.writer", "fault.points.reader", "scenarios.writer", "scenarios.reader"],
+    "C09": ["cuts"],
+    "C11": ["ranges"],
 }
 
 LEVEL = {
@@ -271,7 +278,8 @@ def check(prop, tier, seed):
         "seed": seed,
         "level": LEVEL.get(prop, "exploration"),
         "coverage": {
-            "evaluations": n,
+            "evaluations": sum(probes.get(k, 0) for k in SUBRUNS[prop]) if prop in SUBRUNS else n,
+            "cases": n,
             "distinct_nontrivial": len(distinct),
             "rule": RULES.get(prop, "cases are drawn from a choice tape seeded by hash(VERIF_SEED, property, case index); a case is non-trivial when it ran at least one block task under the seeded scheduler; distinct = distinct (configuration signature, schedule signature) pairs, the schedule signature being a hash of the (task, hook point) event sequence"),
             "samples": samples,
@@ -288,7 +296,7 @@ def check(prop, tier, seed):
             "runs_per_hour": int(n / max(wall_run, 1e-9) * 3600),
             "events_per_hour": int(events / max(wall_run, 1e-9) * 3600),
             "workers": min(NPROC, max(1, ncases)),
-            "components_real": REAL + REAL_EXTRA.get(prop, []),
+            "components_real": REAL_ONLY.get(prop, REAL + REAL_EXTRA.get(prop, [])),
             "components_stub": STUB + STUB_EXTRA.get(prop, []),
             "known_findings_hit": {k: v["count"] for k, v in known_hits.items()},
             "exhaustive": False,
@@ -313,13 +321,32 @@ def check(prop, tier, seed):
     sys.exit(0)
 
 
-RULES = {}
-ASSUMPTIONS = {}
+GEN = "cases are drawn from a choice tape seeded by hash(VERIF_SEED, property, case index); "
+RULES = {
+    "C08": GEN + "a case is one scenario plus one simulated execution per sink/source call index of its fault-free run (evaluations = executions); non-trivial = the scenario makes at least one sink/source call; distinct = distinct (configuration signature, schedule signature) pairs",
+    "C09": GEN + "a case is one valid stream plus one simulated decode per cut position (evaluations = decodes); every cut of streams <= 4 KiB in a quarter of the cases; distinct = distinct (configuration signature, schedule signature) pairs of cases with at least one cut",
+    "C11": GEN + "a case is one stream of 0-12 blocks plus one simulated decode per block range (evaluations = decodes, all ranges 1<=from<=to<=blocks+3); distinct = distinct (configuration, schedule signature) pairs",
+    "C14": GEN + "a case is one bit-level operation program (write side, then mirrored or re-chunked read side); non-trivial = more than 64 bits written; distinct = distinct (buffer sizes, program hash) pairs; this property has no schedule dimension",
+}
+ASSUMPTIONS = {
+    "C02": ["a checksum collision on a damaged block (2^-32 / 2^-64) is ignored"],
+    "C14": ["single-threaded layer: no schedule or fault dimension; the simulator provides the sink/source seam, tape, replay and shrinking"],
+}
 EXPECTED_PROBES = {
+    "C01": ["blocks", "tiny.input", "chain.gt4", "headerless"],
+    "C02": ["damage.reported", "damage.harmless", "bytes.after.error", "parser.agrees"],
+    "C05": ["failed.block.reported", "damage.undetected.nochecksum", "parser.agrees"],
+    "C06": ["src.short.not.multiple.of.8", "write.1byte"],
     "C07": ["handoff.cancel.observed", "handoff.failed.tasks", "handoff.io.by.holder", "handoff.end.of.stream.task", "sink.fault.while.task.holds", "src.fault.while.task.holds"],
+    "C08": ["fault.during.close", "fault.during.write", "src.fault.inside.block.task", "close.retry.delivered.everything", "fault.survived.complete.data"],
+    "C09": ["exhaustive.streams", "cuts"],
+    "C11": ["range.empty", "range.beyond.end", "batch.all.skipped", "range.avoiding.damaged.blocks"],
+    "C14": ["crosses.flush.boundary", "read.rechunked"],
+    "C17": ["close.failed.then.retried", "close.repeated", "write.after.close.refused", "read.after.close.refused", "closed.without.data"],
 }
 REAL_EXTRA = {}
 STUB_EXTRA = {}
+REAL_ONLY = {"C14": ["v2/bitstream (DefaultOutputBitStream, DefaultInputBitStream)"]}
 
 
 def replay(path):
